@@ -588,7 +588,7 @@ func init() {
 	vc.Register(&vc.Check{
 		ID:    "C04",
 		Level: "model_checking",
-		Rule:  "histories: every sequence WITH repetition of deliveries to one real Serf node whose member table was filled through the real handlers with one member per state (b unknown, c alive, d leaving, e left, f failed, the node itself alive; recorded status time 5); shorter sequences are checked as prefixes (oracle after every step). intents/<state> (one scenario per member X; quick length 4): join intents about X at times {5,6,7}, leave intents at {5,6,7}, pruning leave intents at {6,7} (equal/higher than the record, lower/equal/higher than a buffered intent), state-sync merges carrying X as joined at 6 / as left after 5, memberlist alive notification about X, memberlist dead notification (flaps), a 6 min tick (expires buffered intents; for b also a 40 s tick that must not). intents/<state>+stale-join|leave (4 more start states, quick length 4): a member whose record was created from a buffered join resp. leave intent at time 4 and has moved on to status time 6 (alive, or failed since), with the consumed buffer entry still parked: joins at {4,5,6,7}, leaves at {5,7}, pruning leave at 7, merges carrying it as joined at 5 / left after 4, alive and dead notifications (flaps), 6 min tick. The set-up deliveries count as part of every history (what they re-broadcast is already used up). Thorough: 'wide' (length 4: also time 4, prune at 5, 40 s tick) and 'deep' (length 5 on 10-11 letters). events/queries for equal event and query buffer sizes 2 and 4 (length 4; thorough length 5 for buffer 2): user events (2 names, times 0,1,N,N+1,2N+1 colliding in slots), queries (ids 7,8,9, slot collisions, NoBroadcast flag, a filter excluding the node), merges carrying events or moving the event/query clock, the node's own UserEvent/Query and the echo of it; events/queries with UNEQUAL rings (EventBuffer 8 / QueryBuffer 2 and 2 / 8; length 4, thorough 5): times 0, 1, r+1, 2r+1 (slot collisions of the ring under test, size r) and o+1, o+r+1 (around the window edge of the other ring, size o), merges moving the clock past both edges (2r+2, 2o+2), the node's own UserEvent/Query. mixed (length 4 quick, 5 thorough; thorough also length 6 on 7 letters): letters of every kind over all members incl. merges naming everybody. Each step is Delegate.NotifyMsg / MergeRemoteState / a local call on the real node, run to quiescence, then the broadcast queue is drained and queued copies are counted per message (byte identity). closure: two real nodes a1, a2 with the same member table (knowing each other), every ordered pair (thorough: also triples on a reduced alphabet) of 70 messages (intents about a1,a2,b..f at 5,6,7, events, queries) injected into a1 (or into both), then each node's queue is fed to the other until both are empty; plus pairs of events/queries at times 1,3,5,9,11 with rings 8/2 and 2/8. A state is the canonical private state after a history. non-trivial = history/closure in which at least one delivery was NOT re-broadcast (duplicate, stale or refused message)",
+		Rule:  "histories: every sequence WITH repetition of deliveries to one real Serf node whose member table was filled through the real handlers with one member per state (b unknown, c alive, d leaving, e left, f failed, the node itself alive; recorded status time 5); shorter sequences are checked as prefixes (oracle after every step). intents/<state> (one scenario per member X; quick length 4): join intents about X at times {5,6,7}, leave intents at {5,6,7}, pruning leave intents at {6,7} (equal/higher than the record, lower/equal/higher than a buffered intent), state-sync merges carrying X as joined at 6 / as left after 5, memberlist alive notification about X, memberlist dead notification (flaps), a 6 min tick (expires buffered intents; for b also a 40 s tick that must not). intents/<state>+stale-join|leave (4 more start states, quick length 4): a member whose record was created from a buffered join resp. leave intent at time 4 and has moved on to status time 6 (alive, or failed since), with the consumed buffer entry still parked: joins at {4,5,6,7}, leaves at {5,7}, pruning leave at 7, merges carrying it as joined at 5 / left after 4, alive and dead notifications (flaps), 6 min tick. The set-up deliveries count as part of every history (what they re-broadcast is already used up). Thorough: 'wide' (length 4: also time 4, prune at 5, 40 s tick) and 'deep' (length 5 on 10-11 letters). events/queries for equal event and query buffer sizes 2 and 4 (length 4; thorough length 5 for buffer 2): user events (2 names, times 0,1,N,N+1,2N+1 colliding in slots), queries (ids 7,8,9, slot collisions, NoBroadcast flag, a filter excluding the node), merges carrying events or moving the event/query clock, the node's own UserEvent/Query and the echo of it; events/queries with UNEQUAL rings (EventBuffer 8 / QueryBuffer 2 and 2 / 8; length 4, thorough 5): times 0, 1, r+1, 2r+1 (slot collisions of the ring under test, size r) and o+1, o+r+1 (around the window edge of the other ring, size o), merges moving the clock past both edges (2r+2, 2o+2), the node's own UserEvent/Query. mixed (length 4 quick, 5 thorough; thorough also length 6 on 7 letters): letters of every kind over all members incl. merges naming everybody. Each step is Delegate.NotifyMsg / MergeRemoteState / a local call on the real node, run to quiescence, then the broadcast queue is drained and queued copies are counted per message (byte identity). closure: two real nodes a1, a2 with the same member table (knowing each other), every ordered pair (thorough: also triples on a reduced alphabet) of 70 messages (intents about a1,a2,b..f at 5,6,7, events, queries) injected into a1 (or into both), then each node's queue is fed to the other until both are empty; plus pairs of events/queries at times 1,3,5,9,11 with rings 8/2 and 2/8. A state is the canonical private state after a history. non-trivial = history/closure in which at least one delivery was NOT re-broadcast (duplicate, stale or refused message). intents/retention-band: a join / leave intent about an unknown member (buffered for RecentIntentTimeout T = 60 s, reaper every R = 10 s) arriving at every phase of the reaper's period, its duplicate at ages {1 s, T-R-1 s, T-R, T-R/2, T-1 s, T-1 ns}: never re-broadcast",
 		Assumptions: []string{
 			"'retention window' (epoch) of an intent about X ends when the node legitimately forgets it: X's member record is erased by an accepted pruning leave (the same message is then new again), or the buffered intent about an unknown X expires (RecentIntentTimeout); for user events and queries it ends when the Lamport time leaves the node's window for that kind (event clock - EventBuffer for user events, query clock - QueryBuffer for queries). Erasure by the reaper after Tombstone/Reconnect timeouts (24 h) is not explored",
 			"only copies of a delivered message count as re-broadcasts; the node's own originations (UserEvent, Query, refuting join about itself) do not",
@@ -738,6 +738,8 @@ func c04mixedAlphabet(deep bool) []c04act {
 }
 
 func c04run(ctx *vc.Ctx) {
+	bandIdx := 0
+	c04retentionBand(ctx, &bandIdx)
 	th := ctx.Thorough()
 	var scs []c04scn
 	d := 4
